@@ -21,7 +21,12 @@ Enum2 == [k |-> "enum", name |-> "ns.E2", symbols |-> <<"L", "M">>]
 UE2 == [k |-> "union", branches |-> <<EnumS("ns.E"), Enum2>>]
 UF2 == [k |-> "union", branches |-> <<FixedS("F2", 2), FixedS("ns.G1", 1)>>]
 UR2 == [k |-> "union", branches |-> <<RecS("ns.P", <<Fld("a", Prim("long"))>>), RecS("ns.Q", <<Fld("b", Prim("string"))>>), Prim("null")>>]
-SameKindUnions == Over({UE2, UF2, UR2}) \cup {RecS("ns.W", <<Fld("a", [k |-> "array", items |-> UE2])>>)}
+(* an earlier record branch all of whose fields are nullable: a bare record of the LATER branch carries none of
+   them and must still be written under its own branch (validation matches it there) *)
+NullOr(x) == [k |-> "union", branches |-> <<Prim("null"), x>>]
+UR3 == [k |-> "union", branches |-> <<RecS("ns.HB", <<Fld("host", NullOr(Prim("string"))), Fld("seq", NullOr(Prim("long")))>>),
+                                      RecS("ns.LG", <<Fld("user", Prim("string")), Fld("attempts", Prim("int"))>>)>>]
+SameKindUnions == Over({UE2, UF2, UR2, UR3}) \cup {UR3} \cup {RecS("ns.W", <<Fld("a", [k |-> "array", items |-> UE2])>>)}
 
 Schemas == IF Tier = "quick"
            THEN Leaves \cup Unions(CoreLeaves) \cup Special
